@@ -70,6 +70,9 @@ class TemplateExecutor(Executor):
             return lift(lift([self.to_val(x) for x in v], SEQ(VAL)) if v else SV(z3.Empty(SEQ(VAL).sort()), SEQ(VAL)), VAL)
         if isinstance(v, Closure):
             return SV(z3.Const(f"fn_{v.name}", VAL_SORT), VAL)
+        if isinstance(v, SRange):  # range(a, b, c) as a value: determined by its three integers
+            zs = [x if isinstance(x, z3.ExprRef) else (x.z if isinstance(x, SV) else z3.IntVal(int(x))) for x in (v.start, v.stop, v.step)]
+            return SV(uf("range_value", [z3.IntSort()] * 3, VAL_SORT)(*zs), VAL)
         return SV(z3.Const(f"opaque_{type(v).__name__}_{abs(hash(repr(v))) % 10**8}", VAL_SORT), VAL)
 
     def box(self, sv):
@@ -106,6 +109,9 @@ class TemplateExecutor(Executor):
         if isinstance(fn, OpaqueFn):
             return self.opaque_call(fn.name, args, kwargs)
         if fn.key not in self.w.contracts:
+            return self.opaque_call(fn.name, args, kwargs)
+        cur = getattr(fr, "contract", None) if fr is not None else None
+        if cur is not None and fn.name in getattr(cur, "opaque_calls", []):
             return self.opaque_call(fn.name, args, kwargs)
         return super().call_function(fn, args, kwargs, node, fr, **kw)
 
